@@ -28,25 +28,38 @@ gs = gs_plain
 
 
 # ----------------------------------------------------------------------------- DOT text -> abstract tree
-# A tokenising parser of the DOT language subset the graphviz package can emit for this renderer, and of the
-# HTML-like node labels.  What it is insensitive to (none of it is promised by the property, all of it is invisible
-# in the drawing): whitespace and line breaks between tokens and between the elements of a label, `;`/`,`
-# separators, quoting style of identifiers and of attribute values, order of attributes in an attribute list or a tag,
-# attributes the abstract tree does not hold, order of the statements inside a graph or cluster body (kept as
-# found: Coq compares sibling statements and edges as multisets).  It fails closed (ParseError) on anything
-# structurally unexpected: default-attribute statements for nodes/edges, edges inside clusters, subgraphs that are
-# not clusters, a cluster without its own node statement, node labels that are not one HTML table, text outside the
-# name and port cells, unbalanced tags, trailing text.
+# A tokenising parser of the DOT language and of the HTML-like node labels.  It extracts what the property speaks
+# of - node statements (name = node index) with their display name and port cells, clusters and their nesting, edge
+# statements with their end nodes / port offsets / label - and is insensitive to everything else (none of it is
+# promised by the property): whitespace and line breaks between tokens and between the elements of a label, `;`/`,`
+# separators, quoting style of identifiers and of attribute values, order of attributes in an attribute list or a
+# tag, styling attributes (present, absent, or hoisted into `node [...]` / `edge [...]` / `graph [...]` default
+# statements, which are APPLIED with DOT's scoping: to the statements after them in the same graph or subgraph and
+# in subgraphs opened after them), the graph's identifier and a `strict` keyword, order of the statements inside a
+# graph or cluster body (kept as found: Coq compares sibling statements and edges as multisets), subgraphs that are
+# not clusters (transparent groups, e.g. `{rank=same ...}`), compass points on edge ends and `tailport`/`headport`
+# attributes instead of `node:port`, inline formatting of the label (B/I/U/FONT wrappers or none, where the metadata
+# text stands, missing BGCOLOR/COLOR), the text shown inside a port cell, the spelling of the port identifiers
+# (`in.3`, `in_3`, `i3` ...: letters, an optional separator, the offset).  Colours, metadata text, cell texts, and the
+# orders found are handed on for the DIAGNOSTICS only (model drift, never a verdict).
+# It fails closed (ParseError) on what would not be a drawing of the kind the property describes: a node statement
+# without an HTML-like label or whose name is not a node index, a label whose tags are unbalanced, text outside table
+# cells, a port identifier without an offset or whose direction cannot be told, an edge statement inside a cluster
+# that does not hold both its end nodes, a cluster without exactly one statement of its own node directly inside,
+# more than one top-level node, undirected edges, trailing text.
 
 _WS = re.compile(r'(?:\s+|//[^\n]*|/\*.*?\*/|^#[^\n]*)*', re.S | re.M)
 _IDENT = re.compile(r'[A-Za-z_\u0080-\uffff][A-Za-z0-9_\u0080-\uffff]*')
 _NUMERAL = re.compile(r'-?(?:\.\d+|\d+(?:\.\d*)?)')
 _QUOTED = re.compile(r'"((?:[^"\\]|\\.)*)"', re.S)
-_PORTID = re.compile(r'(in|out)\.(-?\d+|None)$')
+_PORTID = re.compile(r'([A-Za-z]*)([._:]?)(-?\d+)$')
+_CLUSTER = re.compile(r'cluster[_.\-]?(\d+)$')
+_COMPASS = {"n", "ne", "e", "se", "s", "sw", "w", "nw", "c", "_"}
 _TAGNAMES = "TABLE|TR|TD|FONT|BR|B|I|U|O|SUB|SUP|S|IMG|HR|VR"
 _TAG = re.compile(r'<(/?)(' + _TAGNAMES + r')((?:\s+[A-Za-z_:][-A-Za-z0-9_:.]*\s*=\s*(?:"[^"]*"|\'[^\']*\'))*)\s*(/?)>', re.I)
 _ATTR = re.compile(r'([A-Za-z_:][-A-Za-z0-9_:.]*)\s*=\s*(?:"([^"]*)"|\'([^\']*)\')')
 _VOID = {"BR", "IMG", "HR", "VR"}
+_LINE = "\x00"                                       # stands for a <BR/> while the text of a cell is assembled
 
 
 def unq(s):
@@ -86,7 +99,16 @@ class _Dot:
             if not m:
                 raise ParseError("unterminated string")
             self.i = m.end()
-            return ("str", unq(m.group(1)))
+            v = unq(m.group(1))
+            while self.peek("+") and self.s.startswith('"', _WS.match(self.s, self.i + 1).end()):   # "a" + "b"
+                self.take("+")
+                self.ws()
+                m = _QUOTED.match(self.s, self.i)
+                if not m:
+                    raise ParseError("unterminated string")
+                self.i = m.end()
+                v += unq(m.group(1))
+            return ("str", v)
         if s[i] == "<":
             return ("html", self.html())
         m = _NUMERAL.match(s, i)
@@ -100,9 +122,9 @@ class _Dot:
         raise ParseError("identifier expected at: " + s[i:i + 60])
 
     def html(self):
-        """an HTML-like label <...>: one TABLE element.  The label may hold arbitrary unescaped text (names,
-        metadata), so its end is found by following the known tags: it ends after the </TABLE> that closes the
-        first <TABLE>; every `<` that does not begin a well-formed known tag is text"""
+        """an HTML-like label <...>: one element (a TABLE, possibly inside FONT/B/... wrappers).  The label may hold
+        arbitrary unescaped text (names, metadata), so its end is found by following the known tags: it ends after the
+        tag that closes the first element; every `<` that does not begin a well-formed known tag is text"""
         s = self.s
         start = self.i + 1
         stack, root, pos = [], None, start
@@ -111,8 +133,8 @@ class _Dot:
             text = s[pos:m.start()]
             pos = m.end()
             if not stack:
-                if text.strip() or close or name != "TABLE":
-                    raise ParseError("node label is not one HTML table")
+                if text.strip() or close or selfclose or name in _VOID:
+                    raise ParseError("node label is not one HTML element")
             elif text:
                 stack[-1]["ch"].append(text)
             if close:
@@ -130,8 +152,6 @@ class _Dot:
             if stack:
                 stack[-1]["ch"].append(el)
             if selfclose or name in _VOID:
-                if not stack:
-                    raise ParseError("node label is not one HTML table")
                 continue
             stack.append(el)
         if root is None:
@@ -163,154 +183,251 @@ def _plain(v, what):
     return v[1]
 
 
+def _label_text(v):
+    """the text an edge label shows: a plain string, or the text of an HTML-like label (formatting dropped)"""
+    if v is None or v[0] != "html":
+        return _plain(v, "edge label").strip()       # blanks around a label do not show (the view strips them too)
+
+    def text_of(el):
+        return "".join(c if isinstance(c, str) else (" " if c["tag"] == "BR" else text_of(c)) for c in el["ch"])
+    return html.unescape(text_of(v[1])).strip()
+
+
 def _node_index(v):
     if v[0] == "html" or not re.fullmatch(r"-?\d+", v[1]):
         raise ParseError("node statement name is not a node index: %r" % (v[1] if v[0] != "html" else "<html>"))
     return int(v[1])
 
 
+def _is_kw(a, *words):
+    return a[0] == "id" and a[1].lower() in words
+
+
+def _port_of(v, what):
+    """a port identifier -> (prefix in lower case, offset)"""
+    m = _PORTID.match(_plain(v, what)) if v is not None else None
+    if not m:
+        raise ParseError("%s: not <letters><offset>: %r" % (what, None if v is None else str(v[1])[:40]))
+    return (m.group(1).lower(), int(m.group(3)))
+
+
+def _split_compass(v):
+    """value of a tailport/headport attribute: "port" or "port:compass" """
+    if v is None or v[0] == "html":
+        return v
+    t = v[1]
+    if ":" in t and t.rsplit(":", 1)[1] in _COMPASS:
+        t = t.rsplit(":", 1)[0]
+    return None if t in _COMPASS else (v[0], t)
+
+
 def parse_dot(src: str):
-    """-> {"bg": colour, "top": node, "edges": [...]}; node = {"stmt": {...}, "cluster": None | {"id", "body": [...], "color"}}"""
+    """-> {"bg": colour, "top": node, "edges": [...], "notes": [...]};
+    node = {"stmt": {...}, "cluster": None | {"id", "body": [...], "color"}}"""
     p = _Dot(src)
     p.ws()
     kw = p.ident()
-    if kw != ("id", "digraph"):
+    notes = set()
+    if _is_kw(kw, "strict"):
+        notes.add("strict")
+        kw = p.ident()
+    if not _is_kw(kw, "digraph"):
         raise ParseError("header: " + src[:60])
     if not p.peek("{"):
-        p.ident()                                   # the graph's name
+        p.ident()                                   # the graph's name: not promised
     p.expect("{")
     edges = []
 
-    def body(depth, cluster_id):
+    def endpoint(first=None):
+        n = first if first is not None else p.ident()
+        if _is_kw(n, "subgraph") or n[0] == "html":
+            raise ParseError("edge end that is not a node")
+        port = None
+        if p.take(":"):
+            port = p.ident()
+            if p.take(":"):
+                p.ident()                            # compass point: where the line touches the cell, not which cell
+            elif port[0] == "id" and port[1] in _COMPASS:
+                port = None
+        return (n, port)
+
+    def body(path, ndef, edef):
         items, attrs = [], {}
+        ndef, edef = dict(ndef), dict(edef)        # defaults set in here end with this body
         while not p.take("}"):
             if p.take(";"):
                 continue
-            a = p.ident()
-            if a == ("id", "subgraph"):
-                name = p.ident()
-                m = re.fullmatch(r"cluster(\d+)", name[1]) if name[0] in ("id", "str") else None
-                if not m:
-                    raise ParseError("subgraph that is not a cluster<index>")
+            if p.peek("{"):                          # anonymous subgraph: a transparent group
                 p.expect("{")
-                items.append(("cluster", int(m.group(1)), body(depth + 1, int(m.group(1)))))
+                items.extend(body(path, ndef, edef)["items"])
+                notes.add("plain subgraph")
+                if p.peek("->"):
+                    raise ParseError("edge end that is not a node")
                 continue
-            if a[0] == "id" and a[1].lower() in ("node", "edge", "strict", "digraph", "graph") and p.peek("["):
+            a = p.ident()
+            if _is_kw(a, "subgraph"):
+                name = None if p.peek("{") else p.ident()
+                p.expect("{")
+                m = _CLUSTER.match(name[1]) if name is not None and name[0] in ("id", "str") else None
+                if m:
+                    cid = int(m.group(1))
+                    c = body(path + [cid], ndef, edef)
+                    again = [x for x in items if x[0] == "cluster" and x[1] == cid]
+                    if again:                        # the same subgraph opened again: DOT adds to it
+                        again[0][2]["items"].extend(c["items"])
+                        again[0][2]["attrs"].update(c["attrs"])
+                        notes.add("cluster opened more than once")
+                    else:
+                        items.append(("cluster", cid, c))
+                elif name is not None and name[0] in ("id", "str") and name[1].startswith("cluster"):
+                    raise ParseError("cluster whose name does not end in a node index: %r" % name[1][:40])
+                else:
+                    items.extend(body(path, ndef, edef)["items"])     # not a cluster: a transparent group
+                    notes.add("plain subgraph")
+                if p.peek("->"):
+                    raise ParseError("edge end that is not a node")
+                continue
+            if _is_kw(a, "node", "edge", "graph") and p.peek("["):
+                at = p.attr_list()
+                {"node": ndef, "edge": edef, "graph": attrs}[a[1].lower()].update(at)
                 if a[1].lower() != "graph":
-                    raise ParseError("default attribute statement for %ss" % a[1])
-                attrs.update(p.attr_list())
+                    notes.add("%s defaults" % a[1].lower())
                 continue
             if p.take("="):                          # graph / cluster attribute
                 if a[0] == "html":
                     raise ParseError("attribute name expected")
                 attrs[a[1]] = p.ident()
                 continue
-            port = None
-            if p.take(":"):
-                port = p.ident()
-                if p.peek(":"):
-                    raise ParseError("compass point on an edge end")
-            if p.take("->"):
-                b = p.ident()
-                p.expect(":")
-                bport = p.ident()
-                if p.peek("->") or p.peek(":"):
-                    raise ParseError("edge chain / compass point")
-                at = p.attr_list()
-                if depth > 0:
-                    raise ParseError("edge statement inside a cluster")
-                ms = _PORTID.match(_plain(port, "edge source port")) if port else None
-                mt = _PORTID.match(_plain(bport, "edge target port"))
-                if not ms or not mt or ms.group(1) != "out" or mt.group(1) != "in" or "None" in (ms.group(2), mt.group(2)):
-                    raise ParseError("edge ends are not <node>:out.<offset> -> <node>:in.<offset>")
-                edges.append({"src": _node_index(a), "sport": int(ms.group(2)), "dst": _node_index(b),
-                              "dport": int(mt.group(2)), "label": _plain(at.get("label"), "edge label"),
-                              "color": _plain(at.get("color"), "edge colour")})
+            if p.peek("--"):
+                raise ParseError("undirected edge")
+            ends = [endpoint(a)]
+            while p.take("->"):
+                ends.append(endpoint())
+            if len(ends) > 1:                        # an edge statement (a chain a -> b -> c is one edge per arrow)
+                at = {**edef, **p.attr_list()}
+                for k, ((x, xp), (y, yp)) in enumerate(zip(ends, ends[1:])):
+                    xp = xp if xp is not None else _split_compass(at.get("tailport"))
+                    yp = yp if yp is not None else _split_compass(at.get("headport"))
+                    edges.append({"src": _node_index(x), "sp": _port_of(xp, "edge source port"),
+                                  "dst": _node_index(y), "dp": _port_of(yp, "edge target port"),
+                                  "label": _label_text(at.get("label")),
+                                  "color": _plain(at.get("color"), "edge colour"), "path": path})
                 continue
-            if port is not None or p.peek("--"):
+            if ends[0][1] is not None:
                 raise ParseError("unexpected statement at: " + p.s[p.i:p.i + 60])
-            at = p.attr_list()                      # a node statement
+            at = {**ndef, **p.attr_list()}           # a node statement
             lab = at.get("label")
             if lab is None or lab[0] != "html":
                 raise ParseError("node statement without an HTML label")
             idx = _node_index(a)
-            items.append(("stmt", idx, parse_stmt(idx, lab[1], p.s)))
+            items.append(("stmt", idx, parse_stmt(idx, lab[1])))
         return {"items": items, "attrs": attrs}
 
-    top = body(0, None)
+    top = body([], {}, {})
     p.ws()
     if p.i != len(src):
         raise ParseError("text after the closing brace")
 
-    def conv(item):
+    inside = {}                                      # node index -> ids of the clusters its statement stands in
+
+    def conv(item, path):
         if item[0] == "stmt":
+            inside.setdefault(item[1], set()).update(path)
             return {"stmt": item[2], "cluster": None}
         _, cid, c = item
         own = [x for x in c["items"] if x[0] == "stmt" and x[1] == cid]
         if len(own) != 1:
             raise ParseError("cluster%d holds %d node statements of its own node" % (cid, len(own)))
+        inside.setdefault(cid, set()).update(path + [cid])
         rest = [x for x in c["items"] if x is not own[0]]
-        return {"stmt": own[0][2], "cluster": {"id": cid, "body": [conv(y) for y in rest],
-                                               "color": _plain(c["attrs"].get("color"), "cluster colour")}}
+        return {"stmt": own[0][2], "cluster": {"id": cid, "body": [conv(y, path + [cid]) for y in rest],
+                                               "color": _plain(c["attrs"].get("color"), "cluster colour"),
+                                               "own_at": c["items"].index(own[0]) - len(rest)}}
 
     tops = top["items"]
     if len(tops) != 1:
         raise ParseError("expected exactly one top-level node/cluster, got %d" % len(tops))
-    return {"bg": _plain(top["attrs"].get("bgcolor"), "bgcolor"), "top": conv(tops[0]), "edges": edges}
+    tree = conv(tops[0], [])
+
+    # which spelling of the port identifiers means which direction: in*/out* by name, anything else by use
+    # (the tail of an edge is an output port, its head an input port)
+    dirs = {"in": "in", "i": "in", "inp": "in", "input": "in", "out": "out", "o": "out", "outp": "out", "output": "out"}
+
+    def learn(prefix, d):
+        if dirs.setdefault(prefix, d) != d:
+            raise ParseError("edge %s names a port %r" % ("tail" if d == "out" else "head", prefix))
+    for e in edges:
+        learn(e["sp"][0], "out")
+        learn(e["dp"][0], "in")
+
+    def direction(prefix):
+        if prefix not in dirs:
+            raise ParseError("cannot tell the direction of port prefix %r" % prefix)
+        return dirs[prefix]
+    # the property promises one cell per input and per output port, not where the cells stand: the offsets of each
+    # direction are handed over as a sorted multiset (a missing or repeated cell still shows against 0..n-1)
+    todo = [tree]                                     # iterative: hierarchies are nested up to 66 deep and more
+    while todo:
+        node = todo.pop()
+        st = node["stmt"]
+        ins, outs = [], []
+        for (prefix, k), shown in st.pop("cells"):
+            (ins if direction(prefix) == "in" else outs).append((k, shown))
+        st["ins"], st["outs"] = sorted(k for k, _ in ins), sorted(k for k, _ in outs)
+        st["cells_in_order"] = [k for k, _ in ins] == st["ins"] and [k for k, _ in outs] == st["outs"]
+        st["cells_show_offset"] = all(str(k) == t for k, t in ins + outs)
+        if node["cluster"]:
+            todo.extend(node["cluster"]["body"])
+    out_edges = []
+    for e in edges:
+        if e["path"]:
+            notes.add("edge inside a cluster")
+            for n in (e["src"], e["dst"]):
+                if not set(e["path"]) <= inside.get(n, set()):
+                    raise ParseError("edge statement inside a cluster that does not hold its end node %d" % n)
+        out_edges.append({"src": e["src"], "sport": e["sp"][1], "dst": e["dst"], "dport": e["dp"][1],
+                          "label": e["label"], "color": e["color"]})
+    return {"bg": _plain(top["attrs"].get("bgcolor"), "bgcolor"), "top": tree, "edges": out_edges, "notes": sorted(notes)}
 
 
-def parse_stmt(idx, table, src):
-    """the HTML table of a node statement -> colours, name, data, cells.  Free text is allowed in two places only:
-    inside the FONT element that holds the <B>name</B> (name = source text of the B element, data = source text
-    from </B> to </FONT>, both verbatim), and inside the cells that carry a PORT attribute"""
-    at = table["attrs"]
-    if "BGCOLOR" not in at or "COLOR" not in at:
-        raise ParseError("node statement %d: table without BGCOLOR/COLOR" % idx)
-    ins, outs = [], []
+def parse_stmt(idx, root):
+    """the HTML-like label of a node statement -> display name, remaining text, port cells, colours.
+    Port cells are the TD elements with a PORT attribute.  The text of the statement is the text of its other cells
+    (inline formatting tags dropped, <BR/> = line break, surrounding blanks dropped); the display name is the first
+    line of the first cell that shows any text, everything after it is `data` (today: the metadata lines)"""
+    cells, blocks = [], []
+
+    def has_table(el):
+        return any(not isinstance(c, str) and (c["tag"] == "TABLE" or has_table(c)) for c in el["ch"])
 
     def text_of(el):
-        return "".join(c if isinstance(c, str) else text_of(c) for c in el["ch"])
+        return "".join(c if isinstance(c, str) else (_LINE if c["tag"] == "BR" else text_of(c)) for c in el["ch"])
 
-    def walk(el, parent):
+    def walk(el):
         if el["tag"] == "TD" and "PORT" in el["attrs"]:
-            m = _PORTID.match(el["attrs"]["PORT"])
-            if not m or m.group(2) == "None":
-                raise ParseError("node statement %d: PORT=%r" % (idx, el["attrs"]["PORT"][:40]))
-            k = m.group(2)
-            v = int(k) if html.unescape(text_of(el)).strip() == k else -999          # the cell text must show the offset
-            (ins if m.group(1) == "in" else outs).append((el["open"][0], v))
+            cells.append((_port_of(("str", el["attrs"]["PORT"]), "node statement %d: PORT" % idx),
+                          html.unescape(text_of(el).replace(_LINE, " ")).strip()))
+            return
+        if el["tag"] != "TABLE" and el["tag"] != "TR" and not has_table(el):
+            blocks.append(text_of(el))               # a cell (or a table-less label) holding text
             return
         for c in el["ch"]:
             if isinstance(c, str):
                 if c.strip():
-                    raise ParseError("node statement %d: text outside the name and port cells" % idx)
+                    raise ParseError("node statement %d: text outside the cells" % idx)
             else:
-                walk(c, el)
-    # the FONT element that holds the name may hold text after it: find the name first
-    def find_b(el, parent, acc):
-        for c in el["ch"]:
-            if not isinstance(c, str):
-                if c["tag"] == "B":
-                    acc.append((c, el))
-                elif not (c["tag"] == "TD" and "PORT" in c["attrs"]):
-                    find_b(c, el, acc)
-        return acc
-    bs = find_b(table, None, [])
-    if len(bs) != 1 or bs[0][1]["tag"] != "FONT":
-        raise ParseError("node statement %d: expected exactly one <B>name</B> inside a FONT element" % idx)
-    b, font = bs[0]
-    k = next(i for i, c in enumerate(font["ch"]) if c is b)
-    if any((c.strip() if isinstance(c, str) else True) for c in font["ch"][:k]):
-        raise ParseError("node statement %d: text before the name" % idx)
+                walk(c)
+    walk(root)
     # character references (a renderer that escapes names: &lt; for <) stand for the characters they display as
-    label = html.unescape(src[b["open"][1]:b["close"][0]])
-    data = html.unescape(src[b["close"][1]:font["close"][0]])
-    font["ch"] = []                                   # judged; everything else must be structure or port cells
-    walk(table, None)
-    # the property promises one cell per input and per output port, not where the cells stand: the offsets of each
-    # direction are handed over as a sorted multiset (a missing or repeated cell still shows against 0..n-1)
-    return {"id": idx, "label": label, "data": data, "ins": sorted(v for _, v in ins), "outs": sorted(v for _, v in outs),
-            "back": at["BGCOLOR"], "border": at["COLOR"]}
+    lines = [[html.unescape(l).strip() for l in b.split(_LINE)] for b in blocks if b.replace(_LINE, "").strip()]
+    label = lines[0][0] if lines else ""
+    data = "\n".join([l for l in lines[0][1:]] + [l for b in lines[1:] for l in b]) if lines else ""
+    table = root
+    while table["tag"] != "TABLE" and any(not isinstance(c, str) for c in table["ch"]):
+        table = next(c for c in table["ch"] if not isinstance(c, str))
+    at = table["attrs"] if table["tag"] == "TABLE" else {}
+    return {"id": idx, "label": label, "data": data, "cells": cells,
+            "back": at.get("BGCOLOR", ""), "border": at.get("COLOR", "")}
 
 
 # ----------------------------------------------------------------------------- the property
@@ -323,8 +440,9 @@ def hugr_view(h):
 
     def info(n):
         op = h[n].op
-        nq = op.name()
-        nu = op.op_def().name if isinstance(op, AsExtOp) else nq
+        # surrounding blanks are dropped on both sides: the label text is read up to blanks around it
+        nq = op.name().strip()
+        nu = op.op_def().name.strip() if isinstance(op, AsExtOp) else nq
         return {"idx": n.idx, "nq": nq, "nu": nu, "nin": h.num_in_ports(n), "nout": h.num_out_ports(n),
                 "meta": [[str(k), str(v)] for k, v in h[n].metadata.items()]}
 
@@ -335,7 +453,7 @@ def hugr_view(h):
         try:
             k = h.port_kind(s)
             if isinstance(k, tys.ValueKind):
-                kk = ["value", str(k.ty)]
+                kk = ["value", str(k.ty).strip()]
             elif isinstance(k, tys.OrderKind):
                 kk = ["order"]
             elif isinstance(k, tys.ConstKind):
@@ -350,6 +468,55 @@ def hugr_view(h):
             kk = ["error", type(e).__name__]
         links.append([s.node.idx, s.offset, t.node.idx, t.offset, kk])
     return {"tree": tree(h.root), "nodes": [n.idx for n in h], "links": links}
+
+
+def drift(view, cfg, d):
+    """DIAGNOSTICS ONLY (evidence: "model drift", never a verdict): in what the property does NOT promise, where does
+    this drawing differ from the model of today's render.py - colours chosen from the palette, metadata lines, labels
+    on non-value edges, text of the port cells, order of cells / sibling statements / edge statements, default
+    statements and other constructs the parser met"""
+    pal, out = cfg["pal"], set(d.get("notes", []))
+    info = {}
+    todo = [view["tree"]]
+    while todo:
+        t = todo.pop()
+        info[t["info"]["idx"]] = t
+        todo.extend(t["ch"])
+    if d["bg"] != pal["background"]:
+        out.add("colours differ")
+    todo = [d["top"]]
+    while todo:
+        n = todo.pop()
+        st, cl = n["stmt"], n["cluster"]
+        t = info.get(st["id"])
+        if t is None:
+            continue
+        want = (pal["edge"], pal["port_border"]) if cl else (pal["node"], pal["background"])
+        if (st["back"], st["border"]) != want or (cl and cl["color"] != pal["edge"]):
+            out.add("colours differ")
+        meta = t["info"]["meta"]
+        lines = ([""] + [html.unescape("%s: %s" % (k, v)).strip() for k, v in meta]) if meta else []
+        if st["data"] != "\n".join(lines):
+            out.add("metadata text differs")
+        if not st["cells_in_order"]:
+            out.add("port cells not in offset order")
+        if not st["cells_show_offset"]:
+            out.add("port cell text is not the offset")
+        if cl:
+            if cl["own_at"] != 0 or [x["stmt"]["id"] for x in cl["body"]] != [c["info"]["idx"] for c in t["ch"]]:
+                out.add("statement order inside a cluster differs")
+            todo.extend(cl["body"])
+    colour = {"value": pal["edge"], "order": pal["dark"], "cf": pal["dark"], "const": pal["const"], "function": pal["const"]}
+    if [(e["src"], e["sport"], e["dst"], e["dport"]) for e in d["edges"]] != [tuple(l[:4]) for l in view["links"]]:
+        out.add("edge statement order differs")
+    kinds = {(l[0], l[1]): l[4][0] for l in view["links"]}
+    for e in d["edges"]:
+        k = kinds.get((e["src"], e["sport"]))
+        if k in colour and e["color"] != colour[k]:
+            out.add("colours differ")
+        if k is not None and k != "value" and e["label"]:
+            out.add("non-value edge labelled")
+    return sorted(out)
 
 
 def sizes_of(view):
@@ -372,6 +539,34 @@ def sizes_of(view):
     return sz
 
 
+def degeneracy_of(view):
+    """which degenerate shapes a HUGR view has (distribution only)"""
+    linked_in, linked_out = {}, {}
+    for l in view["links"]:
+        linked_out.setdefault(l[0], set()).add(l[1])
+        linked_in.setdefault(l[2], set()).add(l[3])
+    r = {"hugrs_without_any_link": not view["links"], "hugrs_without_any_link_but_with_ports": False,
+         "hugrs_of_a_single_node": len(view["nodes"]) == 1, "hugrs_with_a_linkless_node_that_has_ports": False,
+         "hugrs_with_an_unlinked_port_below_a_linked_one": False, "hugrs_with_a_container_operation_without_children": False}
+    containers = ("DFG", "CFG", "Conditional", "TailLoop", "Case", "Module", "FuncDefn", "DataflowBlock")
+    todo = [view["tree"]]
+    while todo:
+        t = todo.pop()
+        i = t["info"]
+        todo.extend(t["ch"])
+        if i["nin"] + i["nout"] > 0:
+            if not view["links"]:
+                r["hugrs_without_any_link_but_with_ports"] = True
+            if i["idx"] not in linked_in and i["idx"] not in linked_out:
+                r["hugrs_with_a_linkless_node_that_has_ports"] = True
+        for n, linked in ((i["nin"], linked_in.get(i["idx"], set())), (i["nout"], linked_out.get(i["idx"], set()))):
+            if any(k not in linked and any(j > k for j in linked) for k in range(n)):
+                r["hugrs_with_an_unlinked_port_below_a_linked_one"] = True
+        if not t["ch"] and (i["nq"].split("(")[0] in containers):
+            r["hugrs_with_a_container_operation_without_children"] = True
+    return r
+
+
 class C20(fw.Prop):
     id = "C20"
     props_file = "props/C20.v"
@@ -381,7 +576,12 @@ class C20(fw.Prop):
     rule = ("HUGRs built by generated well-formed builder programs (harness/progs.py: all container kinds, "
             "order/const/function/control-flow edges, metadata incl. non-ASCII and nested values, inserted "
             "sub-HUGRs), optionally reloaded from their JSON, each rendered under 2-3 of the 6 "
-            "palette x qualify_op_name configurations; the DOT source is parsed into the abstract tree.  "
+            "palette x qualify_op_name configurations (the first through render_dot() without a configuration: "
+            "whatever RenderConfig() is); the DOT source is parsed into the abstract tree; judged: node statements "
+            "(index, one of the node's two display names, cells 0..n-1 per direction), clusters and their nesting, edge "
+            "statements (end nodes, offsets, type label on value edges), HUGR unchanged, and across configurations "
+            "everything but colours and - when qualification differs - names; colours, metadata text, labels of "
+            "non-value edges, cell texts and every order are diagnostics only (model drift).  "
             "a third of the HUGRs are then mutated (leaf nodes deleted, "
             "new nodes added so that freed indices are reused and children lists leave index order; the new nodes "
             "carry Custom or extension operations of every flavour).  "
@@ -396,13 +596,21 @@ class C20(fw.Prop):
             "FuncDefn, Tag, DataflowBlock successors), containers with up to 1100 children, one port carrying up to "
             "~130 links, nesting up to 66 deep, operation names / metadata keys and values / type labels of "
             "hundreds of characters.  "
+            "a fourth stream (16 quick / 120 thorough, plus 8 corpus entries) of degenerate HUGRs: no link at all "
+            "(regions that discard every input, modules whose functions ignore their arguments, unused declarations "
+            "and constants, every link deleted again), nodes with ports and no link (Hugr.add_node, insert_hugr of "
+            "sub-HUGRs nobody is wired to), unlinked ports below the only linked one, order links only, single-node "
+            "HUGRs of every operation, containers holding only Input/Output or nothing, unfinished CFGs/loops.  "
             "non-trivial = the HUGR has a nested container (cluster inside a cluster) and at least one "
             "non-value link (order/const/function/control-flow), or it has a node with more than 16 ports in one "
-            "direction, more than 16 children, or nesting deeper than 16")
+            "direction, more than 16 children, or nesting deeper than 16, or it has no link at all but a node with ports")
     trusted = ["harness/props/c20.py: tokenising parser of the DOT text the graphviz package emits and of the HTML-like "
-               "node labels (insensitive to whitespace, quoting style, attribute and statement order; fails closed on "
-               "unexpected structure); display names and metadata strings are read from the "
-               "HUGR through op.name()/op_def().name/str(value) as render.py does",
+               "node labels (insensitive to whitespace, quoting style, attribute and statement order, styling attributes "
+               "and where they are set - node/edge/graph default statements are applied with DOT's scoping -, inline "
+               "formatting of the label, spelling of the port identifiers; fails closed on structure that is not a "
+               "drawing of nodes with port cells, clusters and edges); display names and metadata strings are read from "
+               "the HUGR through op.name()/op_def().name/str(value) as render.py does, blanks around names and type "
+               "labels dropped on both sides",
                "the graphviz Python package (DOT text emission) is outside the model"]
     assumptions = ["hierarchy reached from the root covers the HUGR's nodes (checked per case by the monitor)"]
 
@@ -437,6 +645,15 @@ class C20(fw.Prop):
             cases.append({"big": r3.randrange(1 << 30), "heavy": tier != "quick", "reload": r3.random() < 0.2,
                           "resolve": False, "shared": r3.random() < 0.3,
                           "cfgs": [0] + r3.sample(range(1, 6), 1 if tier == "quick" else 2)})
+        # seeded round 4: degenerate HUGRs (no link at all, nodes with ports but no link, a single node, containers that
+        # hold nothing); a fourth generator, so that the three streams above stay what they were
+        r4 = random.Random(r3.randrange(1 << 30))
+        for i in range(16 if tier == "quick" else 120):
+            seed = r4.randrange(1 << 30)
+            rel, sh = r4.random() < 0.3, r4.random() < 0.3
+            cases.append({"deg": seed, "reload": rel and deg_reloadable(gen_deg_program(random.Random(seed))),
+                          "resolve": False, "shared": sh,
+                          "cfgs": [0] + r4.sample(range(1, 6), 1 if tier == "quick" else 2)})
         return cases
 
     def corpus(self, ctx):
@@ -463,6 +680,21 @@ class C20(fw.Prop):
             {"bigprog": {"form": "children", "n": 130, "fan": True}, "reload": False, "shared": True, "cfgs": [0, 2]},
             {"bigprog": {"form": "deep", "d": 33}, "reload": False, "cfgs": [0, 5]},
             {"bigprog": {"form": "names", "L": 257, "K": 17, "V": 300}, "reload": False, "cfgs": [0, 1]},
+            # seeded round 4 (C20-g): one cell per port also when the HUGR has no link at all / the node has no link
+            {"degprog": {"root": "dfg", "tys": "BB", "keep": [], "items": []}, "reload": False, "cfgs": [0, 1]},   # the demo of C20-g
+            {"degprog": {"root": "module", "fns": [{"tys": "BBB", "keep": [], "items": []}], "decls": ["B"], "consts": 1,
+                         "alias": False, "call": False}, "reload": True, "cfgs": [0, 4]},           # a function that ignores its arguments
+            {"degprog": {"root": "dfg", "tys": "BQ", "keep": [0, 1], "items": [], "unlink": "all"}, "reload": False,
+             "shared": True, "cfgs": [0, 2]},                                                    # every link deleted again
+            {"degprog": {"root": "dfg", "tys": "B", "keep": [], "items": [
+                {"k": "iso", "a": 2, "b": 3, "at": 0, "op": "custom"}, {"k": "empty_dfg"}, {"k": "const"},
+                {"k": "iso", "a": 1, "b": 1, "at": 1, "op": "DFG"}, {"k": "ins_cond", "n": 2, "tys": "B"}]},
+             "reload": False, "cfgs": [0, 3]},                             # nodes with ports and no link, empty containers
+            {"degprog": {"root": "dfg", "tys": "B", "keep": [], "items": [{"k": "gap", "a": 4, "b": 1, "j": 3}, {"k": "order"}]},
+             "reload": False, "cfgs": [0, 5]},                             # ports 0..2 below the only linked one; an order link
+            {"degprog": {"root": "single", "op": "Module", "tys": ""}, "reload": False, "cfgs": [0, 1]},        # Hugr(): one node
+            {"degprog": {"root": "dfg", "tys": "", "keep": [], "items": []}, "reload": True, "cfgs": [0]},      # Dfg(): no port, no link
+            {"degprog": {"root": "cfg", "tys": "BU", "blocks": 0}, "reload": False, "cfgs": [0, 2]},            # a CFG nobody finished
         ]
 
     def build(self, case):
@@ -474,12 +706,24 @@ class C20(fw.Prop):
         if "big" in case or "bigprog" in case:
             p = case.get("bigprog") or gen_big_program(random.Random(case["big"]), case.get("heavy", False))
             return run_big_program(p), p
+        if "deg" in case or "degprog" in case:
+            p = case.get("degprog") or gen_deg_program(random.Random(case["deg"]))
+            return run_deg_program(p), p
         p = progs.gen_program(random.Random(case["seed"]), case.get("root"))
         h = progs.run(p).hugr
         if case.get("mutate"):
             if not mutate(h, random.Random(case["seed"] + 17), case["mutate"]):
                 h = progs.run(p).hugr          # the store left dangling links (C04's concern): draw it unmutated
         return h, p
+
+    @staticmethod
+    def parse(src, view, cfg):
+        d = parse_dot(src)
+        try:
+            d["drift"] = drift(view, cfg, d)
+        except Exception as e:                          # a diagnostic never decides anything
+            d["drift"] = ["diagnostic failed: " + type(e).__name__]
+        return d
 
     def observe(self, case, ctx):
         from hugr.hugr import Hugr
@@ -501,6 +745,11 @@ class C20(fw.Prop):
         for ci in case["cfgs"]:
             pal, q = CONFIGS[ci]
             palette = PALETTE[pal]
+            if ci == 0:
+                # the public entry point without a configuration: whatever the default configuration is (which
+                # palette and which qualification is the default is not part of the property)
+                dflt = RenderConfig()
+                palette, q = dflt.palette, bool(dflt.qualify_op_name)
             cfg = {"pal": {f: getattr(palette, f) for f in PAL_FIELDS}, "qualify": q}
             try:
                 if ci == 0:
@@ -512,11 +761,11 @@ class C20(fw.Prop):
                     src = rend.render(h).source
                     src2 = rend.render(h).source
                     if src2 != src:
-                        rs.append([cfg, parse_dot(src)])
+                        rs.append([cfg, self.parse(src, view, cfg)])
                         src = src2                                 # both drawings are judged
                 else:
                     src = h.render_dot(RenderConfig(palette=palette, qualify_op_name=q)).source
-                rs.append([cfg, parse_dot(src)])
+                rs.append([cfg, self.parse(src, view, cfg)])
             except ParseError as e:
                 rs.append([cfg, {"error": "ParseError: " + str(e)[:200]}])
             except Exception as e:
@@ -602,7 +851,9 @@ class C20(fw.Prop):
         if depth(v["tree"]) >= 3 and any(l[4][0] != "value" for l in v["links"]):
             return True
         sz = sizes_of(v)
-        return sz["ports"] > 16 or sz["children"] > 16 or sz["depth"] > 16
+        if sz["ports"] > 16 or sz["children"] > 16 or sz["depth"] > 16:
+            return True
+        return not v["links"] and sz["ports"] > 0          # ports to draw although the HUGR has no link
 
     def describe(self, case, obs):
         o = dict(obs)
@@ -634,6 +885,11 @@ class C20(fw.Prop):
             rest = {k: v for k, v in case.items() if k not in ("big", "heavy")}
             for q in shrink_big_program(p):
                 yield {**rest, "bigprog": q}
+        if "deg" in case or "degprog" in case:
+            p = case.get("degprog") or gen_deg_program(random.Random(case["deg"]))
+            rest = {k: v for k, v in case.items() if k != "deg"}
+            for q in shrink_deg_program(p):
+                yield {**rest, "degprog": q, "reload": bool(rest.get("reload")) and deg_reloadable(q)}
         if len(case.get("cfgs", [])) > 1:
             for c in case["cfgs"]:
                 yield {**case, "cfgs": [c]}
@@ -648,6 +904,9 @@ class C20(fw.Prop):
         if "big" in case:
             for k in range(30):
                 yield {**case, "big": case["big"] + 1 + k}
+        if "deg" in case:
+            for k in range(30):
+                yield {**case, "deg": case["deg"] + 1 + k, "reload": False}
 
     def distribution(self, cases, observations):
         d = {"reloaded": 0, "mutated": sum(1 for c in cases if c.get("mutate")), "nodes": [], "links_by_kind": {}, "render_errors": 0, "stmt_kinds": {},
@@ -658,7 +917,14 @@ class C20(fw.Prop):
              "size_boundary_programs": sum(1 for c in cases if "big" in c or "bigprog" in c),
              "hugrs_with_a_node_of_17plus_ports": 0, "hugrs_with_a_node_of_17plus_children": 0,
              "max_ports_in_one_direction": 0, "max_children": 0, "max_depth": 0, "max_links_on_one_port": 0,
-             "max_name_length": 0}
+             "max_name_length": 0,
+             "degenerate_programs": sum(1 for c in cases if "deg" in c or "degprog" in c),
+             "hugrs_without_any_link": 0, "hugrs_without_any_link_but_with_ports": 0, "hugrs_of_a_single_node": 0,
+             "hugrs_with_a_linkless_node_that_has_ports": 0, "hugrs_with_an_unlinked_port_below_a_linked_one": 0,
+             "hugrs_with_a_container_operation_without_children": 0}
+
+        dd = d["diagnostic only, no verdict (model drift): renderings that differ from the model of today's render.py in "
+               "what the property does not promise"] = {"renderings": 0}
 
         def infos(t):
             yield t["info"]
@@ -670,6 +936,9 @@ class C20(fw.Prop):
                 continue
             d["hugrs_with_2plus_extension_op_definitions"] += len({i["nq"] for i in infos(o["view"]["tree"]) if i["nq"] != i["nu"]}) >= 2
             sz = sizes_of(o["view"])
+            dg = degeneracy_of(o["view"])
+            for k in dg:
+                d[k] += dg[k]
             d["hugrs_with_a_node_of_17plus_ports"] += sz["ports"] > 16
             d["hugrs_with_a_node_of_17plus_children"] += sz["children"] > 16
             for k1, k2 in (("ports", "max_ports_in_one_direction"), ("children", "max_children"), ("depth", "max_depth"),
@@ -679,6 +948,10 @@ class C20(fw.Prop):
             for l in o["view"]["links"]:
                 d["links_by_kind"][l[4][0]] = d["links_by_kind"].get(l[4][0], 0) + 1
             d["render_errors"] += sum(1 for _, x in o["rs"] if "error" in x)
+            for _, x in o["rs"]:
+                dd["renderings"] += 1
+                for k in x.get("drift", []):
+                    dd[k] = dd.get(k, 0) + 1
             if o.get("prog") and not isinstance(o["prog"], str):
                 for k, v in progs.kinds_of(o["prog"]).items():
                     d["stmt_kinds"][k] = d["stmt_kinds"].get(k, 0) + v
@@ -903,6 +1176,11 @@ def gen_ext_program(rng):
                 continue
             args = [rng.choice([w for w, t in pool if t.upper() == ti]) for ti in ins]
             ows = [(fresh(), t) for t in outs]
+            if spec[0] == "noop":
+                # Noop takes its type from the wire it is given ("f", the float64 of the standard float operations'
+                # declarations, stays "f"): once in ~8000 programs the builder then refused a conditional whose cases
+                # disagreed on "f"/"F" (a crash of the generator, not a drawing); same random stream as before
+                ows = [(ows[0][0], dict(pool)[args[0]])]
             st = {"k": "op", "op": list(spec), "args": args, "outs": [w for w, _ in ows]}
             if rng.random() < 0.15:
                 st["md"] = rng.choice([{"note": "x<y"}, {"k": [1, 2]}, {"ü": None, "n": 3}])
@@ -1153,6 +1431,273 @@ def shrink_big_program(p):
         yield {**p, "tys": "B"}
     if p.get("fan"):
         yield {**p, "fan": False}
+
+
+# ----------------------------------------------------------------------------- degenerate HUGRs (seeded round 4)
+# "one cell per input and output port", "one node statement per HUGR node", "one cluster per node that has children"
+# also hold where there is next to nothing to draw: HUGRs without any link (a region that discards all its inputs, a
+# module whose functions ignore their arguments, declarations and constants nobody uses, every link deleted again),
+# nodes that have ports but no link (added through Hugr.add_node, unused constants, sub-HUGRs put in by insert_hugr),
+# ports below the only linked one, order links only, a single node of any operation, containers that hold nothing
+# but their Input/Output nodes or nothing at all.  Programs as data; the port counts are whatever the HUGR reports.
+
+DEG_ROOTS = ["dfg", "dfg", "dfg", "funcdefn", "module", "module", "cfg", "cond", "tailloop", "single"]
+DEG_SINGLE = ["Module", "DFG", "Custom", "CFG", "Conditional", "TailLoop", "Case", "FuncDefn", "FuncDecl", "Const",
+              "Input", "Output", "DataflowBlock", "ExitBlock", "Tag", "MakeTuple", "UnpackTuple", "Noop", "LoadConst",
+              "Call", "ExtOp", "AliasDefn"]
+DEG_ITEMS = ["iso", "iso", "gap", "const", "empty_dfg", "ins_dfg", "ins_cond", "ins_cfg", "ins_loop", "used", "order"]
+
+
+def gen_deg_program(rng):
+    def row(lo=0, hi=4):
+        return "".join(rng.choice("BBQUP") for _ in range(rng.randint(lo, hi)))
+
+    def items(n):
+        out = []
+        for _ in range(n):
+            k = rng.choice(DEG_ITEMS)
+            it = {"k": k}
+            if k == "iso":                   # a node with b output ports and no link (Hugr.add_node); also container
+                #                              operations without a single child (drawn as a node, not as a cluster)
+                it.update(a=rng.randint(0, 3), b=rng.randint(0, 4), at=rng.randint(0, 3),
+                          op=rng.choice(["custom", "custom", "custom", "DFG", "CFG", "Conditional", "TailLoop"]))
+            elif k == "gap":                 # only port j of its inputs is linked: offsets 0..j-1 exist, unlinked
+                it.update(a=rng.randint(1, 5), b=rng.randint(0, 2), j=rng.randint(0, 4))
+            elif k in ("ins_dfg", "ins_loop"):
+                it.update(tys=row(0, 3), keep=rng.random() < 0.3)
+            elif k == "ins_cond":
+                it.update(n=rng.randint(0, 3), tys=row(0, 2))
+            elif k == "ins_cfg":
+                it.update(tys=row(0, 2), blocks=rng.random() < 0.5)
+            out.append(it)
+        return out
+
+    root = rng.choice(DEG_ROOTS)
+    linkless = rng.random() < 0.65
+    p = {"root": root}
+    if root == "single":
+        p["op"] = rng.choice(DEG_SINGLE)
+        p["tys"] = row(0, 3)
+        return p
+    if root in ("dfg", "funcdefn", "tailloop"):
+        p["tys"] = row(0, 5)
+        p["keep"] = [] if linkless else sorted(rng.sample(range(len(p["tys"])), rng.randint(0, min(2, len(p["tys"])))))
+        its = items(rng.randint(0, 4))
+        if linkless:
+            its = [i for i in its if i["k"] not in ("gap", "used", "order")]
+        p["items"] = its
+    elif root == "module":
+        p["fns"] = [{"tys": row(0, 4), "keep": [], "items": [i for i in items(rng.randint(0, 2)) if i["k"] not in ("gap", "used", "order")]}
+                    for _ in range(rng.randint(0, 3))]
+        p["decls"] = [row(0, 3) for _ in range(rng.randint(0, 2))]
+        p["consts"] = rng.randint(0, 2)
+        p["alias"] = rng.random() < 0.3
+        p["call"] = (not linkless) and len(p["fns"]) >= 1 and rng.random() < 0.7
+    elif root == "cfg":
+        p["tys"] = row(0, 3)
+        p["blocks"] = 0 if linkless else rng.randint(0, 2)       # 0: the entry block is never given its branch
+    elif root == "cond":
+        p["n"] = rng.randint(0, 3)
+        p["tys"] = row(0, 3)
+        p["keep"] = not linkless and bool(p["tys"])
+    if not linkless and rng.random() < 0.35:
+        p["unlink"] = rng.choice(["all", "all", "first", "last"])       # links deleted again after building
+    return p
+
+
+def run_deg_program(p):
+    from hugr import ops, tys, val
+    from hugr.hugr import Hugr
+    from hugr.build import Cfg, Dfg, Module
+    from hugr.build.cond_loop import Conditional, TailLoop
+    from hugr.build.dfg import Function
+    tymap = {"B": tys.Bool, "Q": tys.Qubit, "U": tys.Unit, "P": tys.Tuple(tys.Bool, tys.Unit)}
+
+    def row(code):
+        return [tymap[c] for c in code]
+
+    def custom(a, b, name="deg"):
+        return ops.Custom(name, tys.FunctionType([tys.Bool] * a, [tys.Bool] * b), extension="verif.ext")
+
+    def unit_sum(n):
+        return tys.Sum([[] for _ in range(n)])
+
+    def fill(b, its, wires):
+        """b: a dataflow builder; wires: wires of the region (possibly none)"""
+        h = b.hugr
+        for it in its:
+            k = it["k"]
+            if k == "iso":
+                ra, rb = [tys.Bool] * it["a"], [tys.Bool] * it["b"]
+                op = {"custom": lambda: custom(it["a"], it["b"], "iso%d" % it["at"]), "DFG": lambda: ops.DFG(ra, rb),
+                      "CFG": lambda: ops.CFG(ra, rb), "Conditional": lambda: ops.Conditional(unit_sum(2), ra, rb),
+                      "TailLoop": lambda: ops.TailLoop(ra, rb)}[it.get("op", "custom")]()
+                h.add_node(op, b.parent_node, it["b"])
+            elif k == "gap":
+                n = h.add_node(custom(it["a"], it["b"], "gap"), b.parent_node, it["b"])
+                if wires:
+                    h.add_link(wires[0].out_port(), n.inp(min(it["j"], it["a"] - 1)))
+            elif k == "const":
+                b.add_const(val.TRUE)                                   # one output port (constant edge), never loaded
+            elif k == "empty_dfg":
+                with b.add_nested() as inner:                           # a container that holds its Input/Output only
+                    inner.set_outputs()
+            elif k == "ins_dfg":
+                d = Dfg(*row(it["tys"]))
+                d.set_outputs(*(d.inputs() if it["keep"] else []))
+                h.insert_hugr(d.hugr, b.parent_node)                    # a sub-HUGR nobody is wired to
+            elif k == "ins_loop":
+                t = TailLoop([], row(it["tys"]))
+                if it["keep"]:
+                    c = t.add_op(ops.Tag(1, tys.Sum([[], []])))
+                    t.set_loop_outputs(c, *t.inputs())
+                h.insert_hugr(t.hugr, b.parent_node)
+            elif k == "ins_cond":
+                c = Conditional(unit_sum(it["n"]), row(it["tys"]))
+                for i in range(it["n"]):
+                    with c.add_case(i) as cc:
+                        cc.set_outputs()
+                h.insert_hugr(c.hugr, b.parent_node)
+            elif k == "ins_cfg":
+                c = Cfg(*row(it["tys"]))
+                if it["blocks"]:
+                    e = c.add_entry()
+                    e.set_single_succ_outputs()
+                    c.branch_exit(e[0])
+                h.insert_hugr(c.hugr, b.parent_node)
+            elif k == "used":
+                if wires:
+                    b.add_op(custom(1, 1, "used"), wires[0])            # linked input, unlinked output
+            elif k == "order":
+                b.add_state_order(b.input_node, b.output_node)
+            else:
+                raise ValueError(k)
+
+    root = p["root"]
+    if root == "single":
+        r = row(p.get("tys", ""))
+        op = {
+            "Module": lambda: ops.Module(), "DFG": lambda: ops.DFG(r, r), "Custom": lambda: custom(len(r), 2),
+            "CFG": lambda: ops.CFG(r, r), "Conditional": lambda: ops.Conditional(unit_sum(2), r),
+            "TailLoop": lambda: ops.TailLoop(r, r), "Case": lambda: ops.Case(r), "FuncDefn": lambda: ops.FuncDefn("f", r),
+            "FuncDecl": lambda: ops.FuncDecl("g", tys.PolyFuncType([], tys.FunctionType(r, r))),
+            "Const": lambda: ops.Const(val.TRUE), "Input": lambda: ops.Input(r), "Output": lambda: ops.Output(r),
+            "DataflowBlock": lambda: ops.DataflowBlock(r), "ExitBlock": lambda: ops.ExitBlock(r),
+            "Tag": lambda: ops.Tag(0, tys.Sum([r, []])), "MakeTuple": lambda: ops.MakeTuple(r),
+            "UnpackTuple": lambda: ops.UnpackTuple(r), "Noop": lambda: ops.Noop(tys.Bool),
+            "LoadConst": lambda: ops.LoadConst(tys.Bool),
+            "Call": lambda: ops.Call(tys.PolyFuncType([], tys.FunctionType(r, r))),
+            "ExtOp": lambda: mk_ext_op(("gate", "fork")), "AliasDefn": lambda: ops.AliasDefn("A", tys.Bool),
+        }[p["op"]]()
+        h = Hugr(op)
+    elif root in ("dfg", "funcdefn", "tailloop"):
+        r = row(p["tys"])
+        b = Dfg(*r) if root == "dfg" else Function("main", r) if root == "funcdefn" else TailLoop([], r)
+        ins = b.inputs()
+        fill(b, p.get("items", []), ins)
+        keep = [ins[i] for i in p.get("keep", []) if i < len(ins)]
+        if root == "tailloop":
+            if keep:                                  # otherwise the loop body is left without outputs
+                c = b.add_op(ops.Tag(1, tys.Sum([[], []])))
+                b.set_loop_outputs(c, *keep)
+        else:
+            b.set_outputs(*keep)
+        h = b.hugr
+    elif root == "module":
+        m = Module()
+        fns = []
+        for i, f in enumerate(p.get("fns", [])):
+            fb = m.define_function("f%d" % i, row(f["tys"]), [])
+            fill(fb, f.get("items", []), fb.inputs())
+            fb.set_outputs()
+            fns.append(fb)
+        for i, d in enumerate(p.get("decls", [])):
+            m.declare_function("d%d" % i, tys.PolyFuncType([], tys.FunctionType(row(d), [])))
+        for i in range(p.get("consts", 0)):
+            m.add_const(val.TRUE if i % 2 else val.FALSE)
+        if p.get("alias"):
+            m.add_alias_defn("A", tys.Bool)
+        if p.get("call") and fns:
+            g = m.define_function("caller", row(p["fns"][0]["tys"]), [])
+            g.call(fns[0].parent_node, *g.inputs())
+            g.set_outputs()
+        h = m.hugr
+    elif root == "cfg":
+        c = Cfg(*row(p["tys"]))
+        if p.get("blocks", 0) >= 1:
+            e = c.add_entry()
+            e.set_single_succ_outputs(*e.inputs())
+            if p["blocks"] >= 2:
+                b2 = c.add_successor(e[0])
+                b2.set_single_succ_outputs(*b2.inputs())
+                c.branch_exit(b2[0])
+            else:
+                c.branch_exit(e[0])
+        h = c.hugr
+    elif root == "cond":
+        c = Conditional(unit_sum(p["n"]), row(p["tys"]))
+        for i in range(p["n"]):
+            with c.add_case(i) as cc:
+                cc.set_outputs(*(cc.inputs() if p.get("keep") else []))
+        h = c.hugr
+    else:
+        raise ValueError(root)
+    un = p.get("unlink")
+    if un:
+        ls = list(h.links())
+        if un == "first":
+            ls = ls[:1]
+        elif un == "last":
+            ls = ls[-1:]
+        for s, t in ls:
+            h.delete_link(s, t)
+    return h
+
+
+def deg_reloadable(p):
+    """built by the builders alone (no node put in through Hugr.add_node, nothing deleted, a complete region)"""
+    def plain(its):
+        return all(i["k"] in ("const", "empty_dfg", "order") for i in its)
+    if p.get("unlink"):
+        return False
+    if p["root"] in ("dfg", "funcdefn"):
+        return plain(p.get("items", []))
+    if p["root"] == "module":
+        return all(plain(f.get("items", [])) for f in p.get("fns", []))
+    return False
+
+
+def shrink_deg_program(p):
+    if p.get("unlink") and p["unlink"] != "all":
+        yield {**p, "unlink": "all"}
+    for key in ("items", "fns", "decls"):
+        v = p.get(key)
+        if v:
+            for i in range(len(v)):
+                yield {**p, key: v[:i] + v[i + 1:]}
+    for i, f in enumerate(p.get("fns", [])):
+        for j in range(len(f.get("items", []))):
+            g = {**f, "items": f["items"][:j] + f["items"][j + 1:]}
+            yield {**p, "fns": p["fns"][:i] + [g] + p["fns"][i + 1:]}
+        if len(f["tys"]) > 1:
+            g = {**f, "tys": f["tys"][:-1]}
+            yield {**p, "fns": p["fns"][:i] + [g] + p["fns"][i + 1:]}
+    for key in ("consts", "n", "blocks"):
+        if isinstance(p.get(key), int) and not isinstance(p.get(key), bool) and p[key] > 0:
+            yield {**p, key: p[key] - 1}
+    for key in ("alias", "call"):
+        if p.get(key):
+            yield {**p, key: False}
+    t = p.get("tys")
+    if t and len(t) > 1:
+        q = {**p, "tys": t[:-1]}
+        if isinstance(q.get("keep"), list):
+            q["keep"] = [i for i in q["keep"] if i < len(t) - 1]
+        yield q
+    if t and set(t) != {"B"}:
+        yield {**p, "tys": "B" * len(t)}
+    if isinstance(p.get("keep"), list) and p["keep"]:
+        yield {**p, "keep": p["keep"][:-1]}
 
 
 def mutate(h, rng, k):
